@@ -28,6 +28,8 @@ CLAIMS = {
          "NOT covered: the normal approximation for large samples; sizes beyond the bounds; NaN inputs assumed away. Two open known findings (two-sided p-value with ties) are listed in known_findings.json and reported as KNOWN-FINDING"),
  "C13": ("bounded symbolic execution of the real benchmath assumptions on symbolic float samples: most-frequent-value centre and warnings of the exact model, order-statistic interval, median bracketing and binomial coverage of the assume-nothing model, sizes/threshold/unit-interval/reordering/rescaling/swap/exact-permutation value of comparisons, and the delta/range rendering rules on arbitrary floats (cvc5 floating-point queries)",
          "bounded by sample sizes (<= 12) and |x| <= 1e300; normal-model numerics outside; symbolic number formatting is opaque"),
+ "C16": ("partial: the column-header tree only. Bounded symbolic execution of NewKeyHeader on keys projected from symbolic results: at every level the cells are adjacent non-empty runs that partition their parent's span, every column under a cell carries its value, adjacent cells differ, depth equals the number of fields",
+         "NOT covered: the fixed-width text layout (texttab) and text/CSV agreement"),
  "C17": ("partial: gating, direction, order, fence. Bounded symbolic execution of Collection.AddResults/Tables, Sort and Metrics.computeStats with symbolic measurement values (number parser stubbed), symbolic p/alpha through the public DeltaTest hook: delta shown iff no error and p < alpha, percentage formula, better-direction flag, note classes, first-appearance or stable sorted row order, retained values exactly those inside the 1.5-IQR fences",
          "NOT covered: mean of several values and min<=mean<=max (float chains time out), geomean, built-in tests' p-values, formatting; old values concrete"),
  "C19": ("partial: everything before SQL. Bounded symbolic execution of query-word parsing, per-key term merging (denotation of the merged part at a symbolic probe value equals the conjunction of the operands), the generated subselect templates evaluated on a symbolic record, shell-style word splitting, the front end's real quoting function, and the legacy printer/reader round trip",
